@@ -94,7 +94,9 @@ def validate(ck, pid, scns, props, nproc=None, extra_ok=()):
             # properly); it is not a statement about the reported rows, so the other properties only count it -
             # except errors that are plainly not solver failures (KeyError, AttributeError, TypeError ...)
             ck.count("raised")
-            if not o["exc"].startswith(("RuntimeError", "record:")) and not o["exc"].startswith("ValueError"):
+            if o["exc"].startswith("RunHangs"):
+                ck.violation(pid + ".run_hangs", "run_sim did not terminate within the wall-clock limit", {"scn": s})
+            elif not o["exc"].startswith(("RuntimeError", "record:")) and not o["exc"].startswith("ValueError"):
                 ck.violation(pid + ".run_failed", "%s :: %s" % (" ".join(sorted(netgen.features_of(s))), o["exc"]),
                              {"scn": s, "exc": o["exc"]})
             elif o["exc"].startswith("record:"):
@@ -129,8 +131,11 @@ def handle(ck, pid, good, verdicts, expect=None):
     return hits
 
 
-def selftest(ck, pid, good, props, mutate):
-    """binding self-test: corrupt one recorded field of a good trace; the spec must reject it"""
+def selftest(ck, pid, good, props, mutate, attempts=6):
+    """binding self-test: corrupt one recorded field of a good trace; the spec must reject it.  A corruption may land on an
+    instance the clauses deliberately do not judge (isolated node, tank off its curve, ...), so up to `attempts` corrupted
+    traces are tried and one rejection is required."""
+    tried = []
     for s, rows in good:
         rows2 = copy.deepcopy(rows)
         what = mutate(s, rows2)
@@ -138,10 +143,14 @@ def selftest(ck, pid, good, props, mutate):
             continue
         v = common.run_cases("ObsTrace", [simnet.encode_trace(s, rows2, props)], nproc=1)
         hits = handle(ck, pid, [(s, rows2)], v, expect=True)
-        if not any(name.startswith(pid + ".") for _, _, name, _ in hits):
-            raise common.MachineryError("binding self-test: corrupted trace accepted (%s)" % what)
-        ck.count("selftest_rejected")
-        return
+        if any(name.startswith(pid + ".") for _, _, name, _ in hits):
+            ck.count("selftest_rejected")
+            return
+        tried.append(what)
+        if len(tried) >= attempts:
+            break
+    if tried:
+        raise common.MachineryError("binding self-test: corrupted traces accepted (%s)" % "; ".join(tried))
     raise common.MachineryError("binding self-test: no trace suitable for corruption")
 
 
